@@ -539,6 +539,6 @@ func replayC18(path string) int {
 }
 
 func init() {
-	register(&Prop{ID: "C18", Level: "exploration", QuickBudget: 100 * time.Second, ThoroughBudget: 30 * time.Minute,
+	register(&Prop{ID: "C18", Level: "exploration", QuickBudget: 300 * time.Second, ThoroughBudget: 30 * time.Minute,
 		Run: runC18, Worker: c18Worker, Replay: replayC18})
 }
